@@ -436,6 +436,31 @@ func TestStyles(t *testing.T) {
 	}
 }
 
+// TestRaw: dense blocks with many bit-planes in the 16 styles that combine arithmetic-coding
+// bypass with termination of every pass. Each block then has 2 x (planes-4) raw passes, each
+// flushed on its own; about one raw pass in two thousand ends on a byte boundary right after a
+// stuffed 0xFF byte, the corner of the raw flush rule.
+func TestRaw(t *testing.T) {
+	shard, shards := core.EnvInt("VERIF_SHARD", 0), max(1, core.EnvInt("VERIF_SHARDS", 1))
+	seed := core.EnvInt("VERIF_SEED", 1)
+	n := 12000
+	if core.Thorough() {
+		n = 400000
+	}
+	g := rapid.Custom(func(t *rapid.T) *Case {
+		st := t1.CblkStyleLazy | t1.CblkStyleTermAll | rapid.SampledFrom([]int{0, 2, 8, 10, 16, 18, 24, 26, 32, 34, 40, 42, 48, 50, 56, 58}).Draw(t, "rest")
+		return &Case{Kind: "t1", Orient: rapid.IntRange(0, 3).Draw(t, "orient"), Style: st,
+			W: rapid.SampledFrom([]int{4, 8, 16, 16, 32, 5, 13}).Draw(t, "w"), H: rapid.SampledFrom([]int{4, 8, 16, 16, 32, 1, 7}).Draw(t, "h"),
+			MagBits: rapid.IntRange(8, 18).Draw(t, "magbits"), Density: rapid.SampledFrom([]int{100, 100, 70, 30}).Draw(t, "density"), Seed: rapid.Uint64().Draw(t, "seed")}
+	})
+	for i := 0; i < n; i++ {
+		if i%shards != shard {
+			continue
+		}
+		core.Eval(t, ID, "quota", g.Example(seed*1000003+i), Check)
+	}
+}
+
 // TestExhaustive: MQ - all (bit, ctx in {0,1}) sequences of length <= 8 and all bit sequences of
 // length 16 over one context; DWT - all 1-D signals of length <= 8 over {-2..2}, both parities.
 func TestExhaustive(t *testing.T) {
